@@ -23,9 +23,9 @@ def run(tier, seed, work, replay):
         raise E.Inconclusive("negative control (non-atomic handlers) found no violation")
     cases = []
     for a, b in itertools.combinations_with_replacement(TOK_OPS, 2):
-        cases.append({"world": "tokens", "ops": [a, b], "maxsched": 24 if tier == "quick" else 200})
+        cases.append({"world": "tokens", "ops": [a, b], "maxsched": 40 if tier == "quick" else 300})
     for a, b in itertools.combinations_with_replacement(BOOT_OPS, 2):
-        cases.append({"world": "bootstrap", "ops": [a, b], "maxsched": 24 if tier == "quick" else 200})
+        cases.append({"world": "bootstrap", "ops": [a, b], "maxsched": 40 if tier == "quick" else 300})
     rng = random.Random(seed)
     ntri = 6 if tier == "quick" else 150
     for _ in range(ntri):
@@ -88,7 +88,8 @@ def run(tier, seed, work, replay):
     cov["distinct_nontrivial"] = len({(e["world"], tuple(e["ops"]), tuple(e["schedule"])) for e in evs if len(set(e["schedule"])) > 1})
     cov["operation_sets"] = len(cases)
     cov["rule"] = ("every unordered pair of profile-touching handlers on the same user (tokens world: 12 handlers, bootstrap "
-                   "world: 5) under EVERY interleaving of their storage synchronisation points (load / begin-save), plus "
+                   "world: 5) under EVERY interleaving of their storage synchronisation points (before a profile load, after it, "
+                   "begin of a save), plus "
                    "seeded triples; non-trivial = a schedule in which the requests really interleave")
     res.sample(evs[0])
     res.sample(evs[len(evs) // 2])
@@ -127,7 +128,7 @@ def run(tier, seed, work, replay):
                 continue
             if res.classify(sg, ev, known) == "violation":
                 res.sample({"deviation": d, "event": ev})
-    res.assumptions = ["interleavings are enumerated at storage-operation granularity (profile load / write-transaction begin); "
+    res.assumptions = ["interleavings are enumerated at storage-operation granularity (before / after a profile load, write-transaction begin); "
                        "pre-emption inside Go code between those points is covered by the race-detector runs only",
                        "SQLite serialises individual statements"]
     return res.finish()
